@@ -7,6 +7,8 @@ package rulesmon
 import (
 	"fmt"
 	"math/big"
+
+	"github.com/piotrnar/gocoin/lib/btc"
 	"os"
 	"strings"
 	"time"
@@ -1108,6 +1110,31 @@ func Configs(tier string) []Config {
 	return l
 }
 
+// subsidySchedule compares btc.GetBlockReward with the reference schedule at every halving
+// boundary (+-2) up to the 70th interval and at random heights (function level; the chain-level
+// "subsidy+fees+1" probe uses the same function at the heights it reaches).
+func subsidySchedule(run *vlib.Run) {
+	r := run.Rand("subsidy")
+	check := func(h uint32) {
+		if got, want := btc.GetBlockReward(h), refchain.Subsidy(h); got != want {
+			run.Violation("subsidy-schedule/height-class-"+fmt.Sprint(h/210000), fmt.Sprintf("GetBlockReward(%d) = %d, schedule says %d", h, got, want), map[string]interface{}{"height": h})
+		}
+		run.Inc("subsidy_heights_checked")
+	}
+	for k := uint32(0); k <= 70; k++ {
+		for d := -2; d <= 2; d++ {
+			h := int64(k)*210000 + int64(d)
+			if h >= 0 && h <= 0xffffffff {
+				check(uint32(h))
+			}
+		}
+	}
+	for i := 0; i < 20000; i++ {
+		check(r.U32())
+	}
+	check(0xffffffff)
+}
+
 // Main is the entry point of mon/c04 and mon/c05.
 func Main(prop string) {
 	if len(os.Args) > 1 && os.Args[1] == "child" {
@@ -1123,6 +1150,9 @@ func Main(prop string) {
 		return
 	}
 	run := vlib.Start(prop, "exploration")
+	if prop == "C04" {
+		subsidySchedule(run)
+	}
 	tmp, _ := os.MkdirTemp("", "rulesmon")
 	defer os.RemoveAll(tmp)
 	type job struct {
